@@ -298,9 +298,14 @@ class Importance(CellModifierInput):
                             particles_printed.add(other_part)
                         else:
                             to_remove.add(other_part)
+                # the particles with another importance are left out of this entry only while it is
+                # written: what is written later must not depend on having been written before
+                written_order = list(other_particles._particles_sorted)
                 for removee in to_remove:
                     other_particles.remove(removee)
                 ret += self._particle_importances[particle].format()
+                if to_remove:
+                    other_particles.particles = written_order
                 particles_printed.add(particle)
             return ret
         else:
